@@ -68,11 +68,30 @@ def check(run):
     C15.close(R, RID='C09.hang')
     proxyread(R)
     teardown(R)
+    from . import C13
+    C13.closes(R, RID='C09.release')       # ... and the socket is closed: also when shutdown / unwrap fail first
+    request_first(R, 'C09.sites')
     from . import C16
     R.rule('C09.persist', 'persist(): nothing can be raised out of the reconnecting iterator (the connection generator '
                           'lets no exception out; the back-off arithmetic cannot overflow)', 10)
     with R.as_rule('C09.persist'):
         C16.check(R)
+
+
+def request_first(R, RID):
+    """The upgrade request is written before the application is told the connection is up: a failed request write is a
+    ConnectFail (nothing was announced), and nothing the application does at Connected can get onto the wire first."""
+    q = S + '.run'
+    g = R.cfg(q)
+    sr = [n for (n, _) in calls_to(R, g, S + '._send_request')]
+    yc = [y for y in g.yields() if isinstance(y.ast.value, ast.Call) and any(
+        t.kind == 'ctor' and t.cls == 'events.Connected' for t in R.types.call_targets(y.ast.value, g.ctx))]
+    need(len(yc) == 1 and sr, 'run(): Connected yield / _send_request call not found')
+    ok = all_paths_pass(g, [g.entry], sr, [yc[0]], skip_edge=nx)
+    R.ob(RID, 'the upgrade request is sent before Connected is yielded', ok,
+         'run() yields Connected before _send_request(): a failing request write then ends a connection that was announced '
+         'as up with ConnectFail (no Disconnected), and a close() / send at Connected reaches the wire before the request',
+         func=q, node=yc[0].ast, construct='request before Connected')
 
 
 def teardown(R):
@@ -274,6 +293,19 @@ def tryall(R):
         back = fl in g.reachable([h], skip_edge=nx)
         R.ob('C09.tryall', 'failure at one address moves on to the next', back and not leaves,
              'a socket failure for one address ends the attempt instead of trying the remaining addresses', func=q, node=h.ast)
+        # ... and the handler itself does not fail: a sockaddr has 2 (IPv4) or 4 (IPv6) items, so unpacking one into a
+        # fixed number of names raises ValueError for the other family, inside the handler, which ends the whole attempt
+        for m in reach:
+            if m in body and m.kind == 'stmt' and isinstance(m.ast, ast.Assign) and any(
+                    isinstance(t_, (ast.Tuple, ast.List)) for t_ in m.ast.targets):
+                v_ = m.ast.value
+                fixed = isinstance(v_, (ast.Tuple, ast.List)) and any(
+                    isinstance(t_, (ast.Tuple, ast.List)) and len(t_.elts) == len(v_.elts) for t_ in m.ast.targets)
+                R.ob('C09.tryall', 'the failure handler cannot fail itself', fixed,
+                     '`%s` in the handler of a failed address unpacks a value whose length depends on the address family: '
+                     'for the other family it raises ValueError inside the handler - the remaining addresses are never '
+                     'tried and the socket is not closed' % m.text()[:60], func=q, node=m.ast,
+                     construct='unpacking in the address failure handler')
     brk = [n for n in body if n.kind == 'stmt' and isinstance(n.ast, ast.Break)]
     conn = [n for (n, _) in ext_calls(R, g, {'socket.connect'})]
     ok = bool(brk) and bool(conn) and all(all_paths_pass(g, succs(fl, 'body'), conn, [b], skip_edge=nx) for b in brk)
